@@ -329,6 +329,30 @@ class _Exec(_cf.ThreadPoolExecutor):
         f.result, f.exception = result, exception
         return f
 
+    def map(self, fn, *iterables, timeout=None, chunksize=1):
+        # as in the standard library: everything is submitted at once, results come back in the order of the arguments, and `timeout` is ONE
+        # deadline counted from this call - measured on the virtual clock, since the peers' delays are virtual
+        if self._sched is None:
+            return super().map(fn, *iterables, timeout=timeout, chunksize=chunksize)
+        w = vnet.current()
+        fs = [self.submit(fn, *args) for args in zip(*iterables)]
+        start = w.max_clock()
+
+        def gen():
+            try:
+                for f in fs:
+                    r = f.result()
+                    if timeout is not None and w.max_clock() - start > timeout:
+                        raise _cf.TimeoutError()
+                    yield r
+            finally:
+                for f in fs:
+                    if f.cancel():      # an item that never started will not start any more: the scheduler stops waiting for it
+                        with self._sched.cv:
+                            self._sched.finished += 1
+                            self._sched.cv.notify_all()
+        return gen()
+
     def shutdown(self, wait=True, **kw):
         if self._sched is not None and wait:
             self._sched.signal_all_submitted()
